@@ -3,15 +3,11 @@
 //@include prelude/ip.rs
 //@include prelude/net.rs
 //@include prelude/net2.rs
-//@include prelude/rand.rs
 //@include inc/info_hash_types.rs
 //@include inc/node_handle.rs
 //@include inc/message_types.rs
-//@include inc/token_body.rs
-//@include inc/storage_body.rs
 //@include inc/txid_types.rs
 //@include inc/world_core.rs
-//@include inc/world_lookup_standin.rs
-//@include inc/handler_body.rs
+//@include inc/lookup_body.rs
 } // verus!
 fn main() {}
